@@ -13,7 +13,7 @@ def _op(n):
 
 TABLE = {
     "C05": dict(
-        quick=["hostile", "rgate", "ids_edge", "reuse_s", "early_acks"], thorough=["hostile", "rgate", "ids_edge", "in_rm", "mps", "autodetect", "reuse_s", "reuse_c", "early_acks"],
+        quick=["hostile", "rgate", "ids_edge", "reuse_s", "early_acks", "opt_flips", "in_qos2"], thorough=["hostile", "rgate", "ids_edge", "in_rm", "mps", "autodetect", "reuse_s", "reuse_c", "early_acks", "opt_flips", "in_qos2"],
         rule="a peer frame (valid, boundary-valued, malformed or garbage) is handed to recv",
         nontrivial=lambda n: _op(n) in ("recv", "garbage"), profile="hostile"),
     "C06": dict(
@@ -38,7 +38,7 @@ TABLE = {
         rule="a reused object runs next to a fresh shadow object after a close",
         nontrivial=lambda n: n.get("shadow") == "fresh", profile="reuse"),
     "C11": dict(
-        quick=["gate", "gate_x", "in_qos2_disc", "opt_flips"], thorough=["gate", "gate_x", "in_qos2_disc", "qos_offline", "opt_flips"],
+        quick=["gate", "gate_x", "in_qos2_disc", "opt_flips", "gate_late"], thorough=["gate", "gate_x", "in_qos2_disc", "qos_offline", "opt_flips", "gate_late"],
         rule="send is called (one cell of role x version x state x kind)",
         nontrivial=lambda n: _op(n) == "send", profile="gate"),
     "C12": dict(
@@ -64,11 +64,11 @@ TABLE = {
         rule="a restored copy runs next to the original after a crash point",
         nontrivial=lambda n: n.get("shadow") == "restored" or _op(n) == "crash", profile="crash"),
     "C17": dict(
-        quick=["rgate", "autodetect"], thorough=["rgate", "autodetect", "hostile"],
+        quick=["rgate", "autodetect", "rogue_stored"], thorough=["rgate", "autodetect", "hostile", "rogue_stored"],
         rule="a frame is received (one cell of role x version x state x type nibble) or an undetermined server runs next to a fixed-version one",
         nontrivial=lambda n: _op(n) == "recv", profile="hostile"),
     "C19": dict(
-        quick=["timers_c", "timers_s", "hostile", "refuse_stored"], thorough=["timers_c", "timers_s", "hostile", "refuse_stored", "mps", "qos_c50", "reuse_s", "rgate"],
+        quick=["timers_c", "timers_s", "hostile", "refuse_stored", "rogue_stored", "gate_late"], thorough=["timers_c", "timers_s", "hostile", "refuse_stored", "mps", "qos_c50", "reuse_s", "rgate", "rogue_stored", "gate_late"],
         rule="the returned event list contains a close request or a final packet",
         nontrivial=lambda n: any(e["ev"] == "close" for e in n["out"]), profile="timers"),
 }
